@@ -1,6 +1,88 @@
 package refarr
 
-// Models of known deviations of the implementation under test. See Realm.Dev.
+// Models of KNOWN deviations of the implementation under test (see Realm.Dev).
+// Each constant reproduces, inside the otherwise pure ES5.1 model, what one
+// recorded defect does. They exist only so that a known-finding matcher can
+// decide "this failure is exactly what defect X yields" (a deviation model)
+// instead of matching on input regions. The oracle never sets them.
 const (
-	devNone = 0
+	// DevResultHoles: concat, slice, splice and map create their result from a
+	// Go slice whose absent positions hold the zero Value (= undefined), so holes
+	// come back as own properties with value undefined.
+	DevResultHoles = 1 << iota
+	// DevReduceRightIndex: reduceRight passes the property KEY (a String) as the
+	// index argument.
+	DevReduceRightIndex
+	// DevReduceNoElement: reduce/reduceRight over a non-empty array-like without
+	// any present element and without initialValue return undefined instead of
+	// throwing TypeError (15.4.4.21/22 step 8.c).
+	DevReduceNoElement
+	// DevLengthOneConversion: 15.4.5.1 step 3 converts the new length once
+	// instead of ToUint32(v) followed by ToNumber(v).
+	DevLengthOneConversion
+	// DevSpliceNoArgs: splice() without arguments deletes len-start elements.
+	DevSpliceNoArgs
+	// DevLooseIndex: the array index test is strconv.ParseInt (accepts "01",
+	// "+1", "-0", "007"); the element is stored under the canonical name, and
+	// when the index is below length the property is ALSO defined under the
+	// original spelling.
+	DevLooseIndex
+	// DevUndefinedThis: Function.prototype.call(undefined, ...) hands the global
+	// object to a built-in as its this value (ES5.1 15.3.4.4 passes thisArg
+	// unchanged, so 15.4.4.x step 1 ToObject(undefined) must throw TypeError).
+	DevUndefinedThis
+	// DevReverseDeleteFirst: in reverse, when only the upper element exists, the
+	// upper element is deleted before the lower one is put (15.4.4.8 step 6.i
+	// puts first); observable when one of the two operations throws.
+	DevReverseDeleteFirst
+	// DevReturnsThisValue: reverse returns the original this value instead of
+	// the result of ToObject(this) (15.4.4.8 step 7).
+	DevReturnsThisValue
+	// DevLastIndexOf: lastIndexOf has no "len is 0 -> -1" exit before fromIndex
+	// is converted, and clamps fromIndex with > len instead of >= len, so the
+	// property named ToString(len) is examined when fromIndex == len.
+	DevLastIndexOf
+	// DevCallableFirst: the callback methods test IsCallable(callbackfn) before
+	// reading and converting length (15.4.4.16-22 steps 2-4).
+	DevCallableFirst
+	// DevJoinSepFirst: join converts the separator before reading length
+	// (15.4.4.5 steps 2-5).
+	DevJoinSepFirst
+	// DevLengthSameValue: defining length with its current value on an array
+	// whose length is not writable is rejected (the "newLen >= oldLen" test of
+	// 15.4.5.1 step 3.f is implemented as ">").
+	DevLengthSameValue
+	// DevMapEagerAlloc: map allocates ToUint32(length) result slots before the
+	// first callback call; with a huge length the process dies (out of memory)
+	// although the algorithm would stop early (throwing callback). Modelled as
+	// "infeasible" (Budget) so such cases are not run against the implementation.
+	DevMapEagerAlloc
 )
+
+// looseIndex is the index recognition of the implementation under test:
+// an optionally signed run of decimal digits whose value is in [0, 2^32-1).
+func looseIndex(p string) (float64, bool) {
+	s := p
+	neg := false
+	if len(s) > 0 && (s[0] == '+' || s[0] == '-') {
+		neg = s[0] == '-'
+		s = s[1:]
+	}
+	if len(s) == 0 || len(s) > 18 {
+		return 0, false
+	}
+	var v float64
+	for i := 0; i < len(s); i++ {
+		if s[i] < '0' || s[i] > '9' {
+			return 0, false
+		}
+		v = v*10 + float64(s[i]-'0')
+	}
+	if neg && v != 0 {
+		return 0, false
+	}
+	if v >= 4294967295 {
+		return 0, false
+	}
+	return v, true
+}
